@@ -114,6 +114,9 @@ def render_q(q, prefix='models.'):
         return '%sQ(%s=%s)' % (prefix, q['k'], pyval(q['v']))
     if t == 'not':
         return '~(%s)' % render_q(q['c'], prefix)
+    if t == 'wrap':
+        # single-child nesting: Q(Q(...))
+        return '%sQ(%s)' % (prefix, render_q(q['c'], prefix))
     op = {'and': ' & ', 'or': ' | ', 'xor': ' ^ '}[t]
     return '(%s)' % op.join(render_q(c, prefix) for c in q['c'])
 
@@ -121,7 +124,7 @@ def render_q(q, prefix='models.'):
 def q_fields(q):
     if q['q'] == 'leaf':
         return {q['k'].split('__')[0]}
-    if q['q'] == 'not':
+    if q['q'] in ('not', 'wrap'):
         return q_fields(q['c'])
     out = set()
     for c in q['c']:
@@ -138,7 +141,7 @@ def q_rename(q, old, new):
             if parts[0] == old:
                 parts[0] = new
                 n['k'] = '__'.join(parts)
-        elif n['q'] == 'not':
+        elif n['q'] in ('not', 'wrap'):
             walk(n['c'])
         else:
             for c in n['c']:
